@@ -257,6 +257,22 @@ fn oracle_unknown_off(case: &Case) -> Outcome {
                     }
                     off += r.len;
                 }
+                (9, NetflowPacket::Error(_)) => {
+                    // reporting the whole packet as an error is another way of "not reporting
+                    // the record as decoded data" - accepted when the packet really holds
+                    // data for a template with an untyped field; what such a library learns
+                    // from the rest of the packet is not specified, so the case ends here
+                    let mut tmp = model.clone();
+                    let holds_untyped = match dec_v9(&buf[off..], &mut tmp) {
+                        Ok(r) => r.sets.iter().any(|s| matches!(&s.body, RefBody::Data { def, .. } if untyped(Proto::V9, def).is_some())),
+                        Err(_) => false,
+                    };
+                    if holds_untyped {
+                        o.label("v9:packet-with-untyped-field-reported-as-error");
+                        return o;
+                    }
+                    return Outcome::violation(at("V9 packet without any untyped field reported as an error".into()));
+                }
                 (v, other) => {
                     return Outcome::violation(at(format!("V{} packet reported as {:?}", v, obs::version_of(other))));
                 }
@@ -338,6 +354,15 @@ pub fn run(ctx: &Ctx) {
         if let Some(log) = st.strip_prefix("fail:") {
             let diag = std::fs::read_to_string(log).unwrap_or_default();
             let first = diag.lines().find(|l| l.starts_with("error")).unwrap_or("build failed").to_string();
+            // only a compiler diagnostic located in the library's sources is a verdict about
+            // the library; anything else (killed compiler, full disk, harness error) is not
+            let repo = std::env::var("NFV_REPO").unwrap_or_else(|_| "/repo".into());
+            let in_repo = diag.lines().any(|l| l.trim_start().starts_with("-->") && l.contains(&format!("{}/", repo.trim_end_matches('/'))));
+            if !in_repo {
+                *ctx.harness_err.lock().unwrap() = Some(format!("feature-off build failed without a diagnostic in {}: {} (log: {})", repo, first, log));
+                ctx.stop.store(true, std::sync::atomic::Ordering::SeqCst);
+                return;
+            }
             let mut c = Case::default();
             c.params.insert("feature_off_build_failed".into(), 1);
             {
